@@ -92,19 +92,19 @@ type task struct {
 }
 
 type sched struct {
-	r        *Run
-	tasks    []*task
-	cur      *task
-	back     *gate
-	epoch    int
-	clock    int // global step counter: stamps invoke/return
-	deadlock bool
-	deadMsg  string
-	wg       sync.WaitGroup
-	policy   int // 0 uniform, 1 PCT priorities, 2 round-robin with pre-emptions
-	changeAt []int
-	lastIdx  int
-	preempts int
+	r         *Run
+	tasks     []*task
+	cur       *task
+	back      *gate
+	epoch     int
+	clock     int // global step counter: stamps invoke/return
+	deadlock  bool
+	deadMsg   string
+	wg        sync.WaitGroup
+	policy    int // 0 uniform, 1 PCT priorities, 2 round-robin with pre-emptions
+	changeAt  []int
+	lastIdx   int
+	preempts  int
 	lockWaits int
 	lockNames map[*sync.RWMutex]string
 }
